@@ -80,6 +80,9 @@ func c14Fixed() [][]byte {
 		"71055b74726565795191",                          // "[tree" (type Tree []Tree) holding a list that contains itself
 		"4d016a0161480173" + "51915a5a",                 // "j" (type JMap map[string]JMap) holding a map that contains itself
 		"43046e6f64659201610173" + "60" + "90" + "5190", // object whose string field is a ref to itself
+		"4d05496e6e6572" + "48016151915a" + "91" + "5a", // typed map registered as a struct whose KEY is a map that contains itself
+		"4d05496e6e6572" + "795191" + "91" + "5a",       // ... whose key is a list that contains itself
+		"4d05496e6e6572" + "0161" + "48016151915a" + "5a", // ... whose value for the field 'a' is a map that contains itself
 		"7a7a5190", "5751905a", "4851905190" + "5a", "7851" + "90", "79795191", "48790151915a",
 		"4a0000000000000000", "4bffffffff", "4400", "5f", "52ffff", "53ffff61", "42ffff", "62ffff00", "33ff", "2f",
 	} {
@@ -669,6 +672,17 @@ var c14Scaled = []struct {
 		b = append(append(b, 0x58), encInt(int32(k))...)
 		for i := 0; i < k; i++ {
 			b = append(b, 0x60, 0x90)
+		}
+		return b
+	}},
+	{"one unknown field name of k/2 characters and k/2 instances opened inside one another, then the end of the input", func(k int) []byte {
+		k /= 2
+		b := append([]byte{'C', 0x05, 'I', 'n', 'n', 'e', 'r', 0x91, 'S'}, byte(k>>8), byte(k))
+		for i := 0; i < k; i++ {
+			b = append(b, 'q')
+		}
+		for i := 0; i < k; i++ {
+			b = append(b, 0x60)
 		}
 		return b
 	}},
